@@ -78,7 +78,9 @@ def rand_history(rng):
         elif r < 0.57:
             ops.append(["pop", k])
         elif r < 0.62:
-            ops.append(["popitem"])
+            # after a reload() the cache is rebuilt in directory-listing order, so which item popitem() removes differs
+            # between two directories (the crash replays run in their own): use a named pop there
+            ops.append(["popitem"] if not any(o[0] == "reload" for o in ops) else ["pop", k])
         elif r < 0.7:
             ops.append(["update", [(rng.choice(KEYS), rand_spec(rng)) for _ in range(rng.randint(1, 3))]])
             last.update({kk: sp for kk, sp in ops[-1][1]})
